@@ -118,9 +118,11 @@ def compare_reads(ctx, case, stream, disk, requests, subject, states=None, slots
 
 def compare_sector_reads(ctx, case, reader, disk, requests, subject, sector_size=512, states=None, slots=None,
                          unit=None, via="read_sectors", clip=True):
-    """reader(sector, count) for every (sector, count); expected = guest bytes of that sector range."""
+    """reader(sector, count) for every (sector, count); expected = guest bytes of that sector range.  The object returned for
+    the previous request is kept and looked at again after the next call: what was handed out does not change afterwards."""
     size = disk.size
     unit = unit or getattr(disk, "unit", None) or 512
+    kept = None
     for s, c in requests:
         ctx.transitions += 1
         ctx.states += 1
@@ -131,6 +133,17 @@ def compare_sector_reads(ctx, case, reader, disk, requests, subject, sector_size
             exc = None
         except Exception as e:
             got, exc = None, e
+        if kept is not None:
+            try:
+                still = bytes(kept[0]) == kept[1]
+            except Exception:
+                still = False
+            if not still:
+                ctx.violation(dict(case, sector_requests=[list(kept[2]), [s, c]]),
+                              {"subject": subject, "kind": "earlier-result-changed-later", "via": via},
+                              {"first_request": list(kept[2]), "type": type(kept[0]).__name__})
+                return False
+        kept = (got, exp, (s, c)) if exc is None and got == exp else None
         if states is not None:
             u0 = a // unit
             u1 = max(u0, (min(a + max(n, 1), size) - 1) // unit)
